@@ -125,6 +125,8 @@ def install_monitor(rec):
     def weights(self, y_obs, x2_max=-1.0):
         res = orig(self, y_obs, x2_max)
         rec = _state["rec"]
+        if getattr(self, "_vt_unmonitored", False):
+            return res      # (objects whose attributes the harness changed on purpose: judged by their caller)
         try:
             monitor_weights(self, y_obs, x2_max, res, rec)
         except Exception as exc:                      # the monitor itself failed
@@ -669,7 +671,7 @@ def run_db(rec, g, only=None):
         if only is None or only.get("obs") == "batch":
             for x2b in (-1.0, 1.0):
                 check_batch(rec, bm, obs, x2b, g, p,
-                            twin=lambda: mod_bmci().BMCI(yy.copy(), xx.copy(), S.copy()))
+                            twin=lambda: mod_bmci().BMCI(yy.copy(), xx.copy(), S.copy()), raw=(yy, xx, S))
             if only is not None:
                 continue
         for j, yo in enumerate(obs):
@@ -705,7 +707,7 @@ def run_db(rec, g, only=None):
                                         dict(case, method="predict_quantiles"), sig)
 
 
-def check_batch(rec, bm, obs, x2, g, p, twin=None):
+def check_batch(rec, bm, obs, x2, g, p, twin=None, raw=None):
     """predict() on a batch of observations must give, row by row, what it gives for each row alone
     (rows with and without support mixed in both orders)."""
     obs = np.asarray(obs)
@@ -741,6 +743,25 @@ def check_batch(rec, bm, obs, x2, g, p, twin=None):
         # reversed in place between two calls that pass the same array object
         from vt.monitors import history
         tw = twin() if twin is not None else None
+        if tw is not None and case["x2"] < 0:
+            # constructor history: the caller's database and covariance buffers are refilled right after
+            # the object was built (before its first evaluation) - it answers for what it was built from
+            yb, xb, Sb = (np.array(a, copy=True) for a in raw) if raw is not None else (None, None, None)
+            if yb is not None:
+                rec.ev()
+                rec.count("history.constructor_buffers_refilled")
+                late = mod_bmci().BMCI(yb, xb, Sb)
+                late._vt_unmonitored = True
+                # (only the covariance buffer: the unchanged tree keeps the database arrays by reference,
+                # the statement says nothing about that; the precision matrix is what the weights use)
+                Sb *= 9.0
+                ob = np.array(obs, dtype=float)
+                a1, a2 = late.predict(ob, x2), tw.predict(ob, x2)
+                if not all(np.array_equal(np.asarray(u), np.asarray(v), equal_nan=True) for u, v in zip(a1, a2)):
+                    rec.violation("bmci-stale-state", case,
+                                  {"history": "covariance buffer refilled after construction, before the "
+                                              "first evaluation", "method": "predict"})
+                    return
         row = np.array(obs[0], dtype=float)
         taus = np.array([0.1, 0.5, 0.9])
         for name, args in (("predict", (np.array(obs, dtype=float), x2)),
